@@ -21,7 +21,7 @@ import sys
 
 VERIF = os.path.dirname(os.path.abspath(__file__))
 sys.path.insert(0, VERIF)
-DEFAULT_MODULES = ["iosim.c09", "iosim.c08", "iosim.c07", "iosim.c10"]
+DEFAULT_MODULES = ["iosim.c09", "iosim.c08", "iosim.c07", "iosim.c10", "irsim.c01_c06:C01", "irsim.c01_c06:C06"]
 
 
 def digests(mod_name: str, start: int, n: int, prop: str | None = None) -> list[str]:
@@ -61,12 +61,20 @@ def main() -> int:
     bad = 0
     for m in mods:
         name, prop = (m.split(":") + [None])[:2]
+        if prop and os.environ.get("VERIF_PROPERTY") != prop:
+            # modules that serve two properties fix the property at import: one process per property
+            env = dict(os.environ, VERIF_PROPERTY=prop, PYTHONHASHSEED="0")
+            p = subprocess.run([sys.executable, os.path.abspath(__file__), "determinism", "--n", str(args.n), "--modules", m], env=env, timeout=3600)
+            bad += 1 if p.returncode else 0
+            continue
         a = digests(name, 0, args.n, prop)
         b = digests(name, 0, args.n, prop)
         # fresh interpreters under two hash seeds
         outs = []
         for hs in ("0", "12345"):
             env = dict(os.environ, PYTHONHASHSEED=hs)
+            if prop:
+                env["VERIF_PROPERTY"] = prop
             p = subprocess.run([sys.executable, os.path.abspath(__file__), "digests", "--n", str(args.n), "--modules", m], capture_output=True, text=True, env=env, timeout=1800)
             if p.returncode != 0:
                 print(p.stderr[-2000:])
